@@ -16,6 +16,11 @@
 //	            linear relations, and every dependent row set found is turned
 //	            into multi-row alterations of one column (classes dep-*).
 //
+//	c15 hist    histories of 2-4 honest malicious-mode calls on one pair, every
+//	            call with a named result buffer (fresh, the slice of the previous
+//	            call, a window of an array of ones / one byte value / random
+//	            bytes): hist.go.
+//
 // Oracle (independent of the model): an accepted run must have outputs with
 // recv_i = sent_i xor choice_i*Delta for the receiver's ORIGINAL choices, and
 // no altered matrix bit may lie in a column selected by Delta (a non-padding
@@ -36,12 +41,14 @@ import (
 
 func main() {
 	if len(os.Args) < 2 {
-		fmt.Fprintln(os.Stderr, "usage: c15 sess [flags] | c15 consts -repo DIR")
+		fmt.Fprintln(os.Stderr, "usage: c15 sess|hist [flags] | c15 consts -repo DIR")
 		os.Exit(2)
 	}
 	switch os.Args[1] {
 	case "sess":
 		os.Exit(sessMode(os.Args[2:]))
+	case "hist":
+		os.Exit(histMode(os.Args[2:]))
 	case "consts":
 		os.Exit(constsMode(os.Args[2:]))
 	default:
